@@ -1554,7 +1554,9 @@ def run(ck: Ck) -> None:
     ok_h = ck.translate('HsRows_gen', c02_hstring.translate)      # _handle_string is part of the chunk-independence model as well
     if not ok_h:
         ck.gen('HsRows_gen', c02_hstring.EMPTY_GEN, {'failed_closed': True})
-    built = ok_t and ok_k and ok_b and ck.build(['Props/C03.vo', 'Text/TokEnum.vo', 'Text/KvErrGen.vo', 'Text/BaseTokEnum.vo', 'Text/ErrFmtGen.vo'])
+    ok_g = U.translate_get_token_trees(ck)      # _get_token / _handle_comment as decision trees + the state census
+    built = ok_t and ok_k and ok_b and ck.build(['Props/C03.vo', 'Text/TokEnum.vo', 'Text/KvErrGen.vo', 'Text/BaseTokEnum.vo', 'Text/ErrFmtGen.vo',
+                                                 'Text/HsGen.vo', 'Text/GtGen.vo'])
     if built:
         started = start_exhaustive_model(ck)
         th = U.theorems_in_background(ck, 'Props/C03.v')
@@ -1596,6 +1598,7 @@ def run(ck: Ck) -> None:
             'error_formats_str_messages_exactly_when_arguments_are_given': 'gen_error_str_form_ok',
             'error_refuses_a_token_with_two_values': 'gen_error_two_values_refused',
         }, 'efinst')]))
+        U.get_token_tree_obligations(ck, ok_g, hs_rows=ok_h)
         _stage(ck, 'translate+build+theorems+instances')
         corr_exhaustive(ck, escalate, started)
         _stage(ck, 'corr_exhaustive')
